@@ -239,14 +239,29 @@ func applyStream(cfg applyCfg, n int) {
 				cur = c2
 			}
 		}
+		bigCopy := false
+		if cfg.limitMode == 1 && chance(0.02) {
+			// a source of a kilobyte or more that has been walked into, copied, changed below its top
+			// level, and copied again: the second copy is measured as the value is THEN
+			bigCopy = true
+			var ms []string
+			for j := 0; j < 24+rng.Intn(20); j++ {
+				ms = append(ms, fmt.Sprintf(`"k%02d":%s`, j, pick(`"`+strings.Repeat("v", 25+rng.Intn(30))+`"`, `{"in":[1,2,{"d":"`+strings.Repeat("w", 20)+`"}]}`, `[10,20,30,40]`)))
+			}
+			doc = []byte(`{"src":{"o":{"x":1},` + strings.Join(ms, ",") + `},"z":[0]}`)
+			change := pick(`{"op":"add","path":"/src/o/grown","value":"`+strings.Repeat("g", 40+rng.Intn(300))+`"}`, `{"op":"remove","path":"/src/k03"}`,
+				`{"op":"replace","path":"/src/k05","value":null}`, `{"op":"copy","from":"/z","path":"/src/o/zz"}`, `{"op":"remove","path":"/src/o/x"}`)
+			ops = []string{pick(`{"op":"test","path":"/src/o/x","value":1}`, `{"op":"add","path":"/src/o/y","value":2}`, `{"op":"copy","from":"/src","path":"/src/o/self"}`),
+				`{"op":"copy","from":"/src","path":"/c1"}`, change, `{"op":"copy","from":"/src","path":` + pick(`"/c2"`, `"/z/-"`, `"/c1"`) + `}`}
+		}
 		if cfg.limitMode == 1 {
 			a.limit = int64(pick64(0, 1, 4, 5, 10, 20, 40, 80, 1000000))
-			if chance(0.4) {
+			if bigCopy || chance(0.4) {
 				// a limit right at the boundary: the smallest limit under which this patch still succeeds
 				// (found by bisection on the library itself), or a little below it
 				plain := aopts{neg: a.neg, allow: a.allow, ensure: a.ensure, esc: a.esc}
 				if ob := runApply(doc, joinOps(ops), plain); ob.status == "ok" {
-					lo, hi := int64(0), int64(1<<14)
+					lo, hi := int64(0), int64(1<<17)
 					plain.limit = hi
 					if ob2 := runApply(doc, joinOps(ops), plain); ob2.status == "ok" {
 						for hi-lo > 1 {
@@ -749,6 +764,13 @@ func mergeStream(n int) {
 		if chance(0.03) {
 			doc = mutate(doc)
 		}
+		if chance(0.0006) {
+			// a NEW object value nested thousands of levels (half the decoder's limit and more) with null
+			// members at the bottom: they are pruned at every depth the decoder accepts
+			d := int(pick64(4990, 5001, 5002, 5200, 7000, 9990))
+			patch = []byte(`{"new":` + strings.Repeat(`{"a":`, d) + `{"b":null,"c":1}` + strings.Repeat("}", d) + `}`)
+			doc = []byte(pick(`{}`, `{"new":null}`, `{"new":7}`, `[1]`))
+		}
 		o := runMerge(false, doc, patch)
 		emit("merge", kv{"mode", "m"}, kv{"doc", hx(doc)}, kv{"patch", hx(patch)}, kv{"obs", o.str()})
 	}
@@ -777,6 +799,23 @@ func merge3Stream(n int) {
 			p1 = chain(pick(`{"x":1,"gone":null}`, `{"x":{"y":1}}`, `{"k":null}`))
 			p2 = chain(pick(`{"y":null,"z":[1,null]}`, `{"x":null}`, `{"x":{"w":2},"q":1}`))
 			doc = []byte(pick(`{}`, string(chain(`{"x":0,"gone":5,"y":7}`)), `{"a":{"a":1}}`))
+		}
+		if chance(0.01) {
+			// wide objects on two levels with the same member names on both, deletions on both levels (the
+			// combined patch must keep every deletion whatever order the maps are walked in: repeated)
+			w := 9 + rng.Intn(8)
+			var outer, inner []string
+			for j := 0; j < w; j++ {
+				outer = append(outer, fmt.Sprintf(`"a%d":%d`, j, j))
+				inner = append(inner, fmt.Sprintf(`"k%d":%d`, j, j))
+			}
+			d1, d2, d3 := rng.Intn(w), rng.Intn(w), rng.Intn(w)
+			q1 := []byte(`{` + strings.Join(outer, ",") + `,"n":{` + strings.Join(inner, ",") + `}}`)
+			q2 := []byte(fmt.Sprintf(`{"k%d":null,"n":{"k%d":null},"k%d":null,"a%d":null}`, d1, d2, d3, rng.Intn(w)))
+			qd := []byte(fmt.Sprintf(`{"k%d":"d1","k%d":"d3","n":{"k%d":true,"keep":1},"a0":"old"}`, d1, d3, d2))
+			for rep := 0; rep < 12; rep++ {
+				emitMerge3(qd, q1, q2)
+			}
 		}
 		if chance(0.06) {
 			// the document already holds, byte for byte, what the combined patch holds (a client that
@@ -1049,6 +1088,16 @@ func decodeStream(n int, exhaustive bool) {
 			ops = append(ops, op)
 		}
 		b := []byte("[" + strings.Join(ops, ",") + "]")
+		if chance(0.03) {
+			// something that is not JSON white space in front of (or behind) an otherwise good patch text: a
+			// byte order mark, other Unicode spaces
+			junk := pick("\xef\xbb\xbf", "\xef\xbb\xbf", "\xfe\xff", "\xc2\xa0", "\v", "\f", "\xe2\x80\x8b", "\x00")
+			if chance(0.7) {
+				b = append([]byte(junk), b...)
+			} else {
+				b = append(b, junk...)
+			}
+		}
 		if chance(0.02) {
 			// two consecutive inputs: one cut off inside a unicode escape after k hex digits, then one
 			// whose first unicode escape is short by k digits (a recycled scanner must not remember)
